@@ -1175,8 +1175,64 @@ static bool is_recursive(const pthread_mutex_t* m)
     return (m->__data.__kind & 127) == PTHREAD_MUTEX_RECURSIVE_NP;
 }
 
+// Function-local statics: the thread that runs the initialiser holds the guard, and any other
+// thread that reaches the declaration blocks inside libstdc++ (a futex the scheduler does not see).
+// A simulated thread may be preempted inside an initialiser (an allocation is a yield point), so
+// the guard is modelled as a mutex of the simulation: a second thread then waits in the scheduler.
 extern "C"
 {
+    int __real___cxa_guard_acquire(void*);
+    void __real___cxa_guard_release(void*);
+    void __real___cxa_guard_abort(void*);
+}
+static thread_local int t_guard_depth = 0;
+static thread_local void* t_guards[8];
+static thread_local bool t_in_guard_wrap = false; // the scheduler's own statics use the real guard
+extern "C"
+{
+    int __wrap___cxa_guard_acquire(void* g)
+    {
+        // only initialisers reached from code under test (inside a fault window) are modelled
+        if (t_in_guard_wrap || !fctl().window || t_guard_depth >= 8)
+            return __real___cxa_guard_acquire(g);
+        t_in_guard_wrap = true;
+        Scheduler& s = Scheduler::get();
+        if (!s.in_sim())
+        {
+            t_in_guard_wrap = false;
+            return __real___cxa_guard_acquire(g);
+        }
+        s.lock(g);
+        int r = __real___cxa_guard_acquire(g); // cannot block: simulated initialisers exclude each other above
+        if (r == 0)
+            s.unlock(g);
+        else
+            t_guards[t_guard_depth++] = g;
+        t_in_guard_wrap = false;
+        return r;
+    }
+    void __wrap___cxa_guard_release(void* g)
+    {
+        __real___cxa_guard_release(g);
+        if (t_guard_depth > 0 && t_guards[t_guard_depth - 1] == g)
+        {
+            --t_guard_depth;
+            t_in_guard_wrap = true;
+            Scheduler::get().unlock(g);
+            t_in_guard_wrap = false;
+        }
+    }
+    void __wrap___cxa_guard_abort(void* g)
+    {
+        __real___cxa_guard_abort(g);
+        if (t_guard_depth > 0 && t_guards[t_guard_depth - 1] == g)
+        {
+            --t_guard_depth;
+            t_in_guard_wrap = true;
+            Scheduler::get().unlock(g);
+            t_in_guard_wrap = false;
+        }
+    }
     int __wrap_pthread_mutex_lock(pthread_mutex_t* m)
     {
         Scheduler& s = Scheduler::get();
